@@ -9,9 +9,10 @@ CONSTANT Depth
 VARIABLE hist
 
 MInit == Init /\ hist = <<>>
-MNext == \E op \in Ops :
+MNext == cnt.n < MaxSteps /\ \E op \in Ops :
             /\ StepsOf(op) # {}
-            /\ LET e == RandomElement(StepsOf(op)) IN Do(e) /\ hist' = Append(hist, e)
+            \* bound variable, not LET: LET would re-evaluate RandomElement at every use of e
+            /\ \E e \in {RandomElement(StepsOf(op))} : Do(e) /\ hist' = Append(hist, e)
 MSpec == MInit /\ [][MNext]_<<vars, hist>>
 
 Emit == Len(hist) < Depth \/ PrintT(<<"BEH", ToJson([cfg |-> cfg, steps |-> hist])>>)
